@@ -2,6 +2,7 @@ import random
 
 from anytree import AnyNode, LightNodeMixin, NodeMixin
 from anytree import util
+import implutil
 from implutil import lbls
 
 
@@ -29,7 +30,8 @@ def build_any(t, cls, how, seed):
         for i, c in enumerate(t[1]):
             collect(c, pos + (i,))
     collect(t, ())
-    mk = (lambda lbl: AnyNode(lbl=lbl)) if cls == "any" else (lambda lbl: LNode(lbl)) if cls == "light" else (lambda lbl: MNode(lbl))
+    A, Lc, Mc = implutil.adv(AnyNode), implutil.adv(LNode), implutil.adv(MNode)
+    mk = (lambda lbl: A(lbl=lbl)) if cls == "any" else (lambda lbl: Lc(lbl)) if cls == "light" else (lambda lbl: Mc(lbl))
     for pos, lbl, _ in flat:
         nodes[pos] = mk(lbl)
     if how == "direct":
